@@ -11,7 +11,11 @@ import (
 var allProperties = []string{"C01", "C02", "C03", "C04", "C05", "C06", "C07", "C08", "C09", "C10", "C11", "C12", "C13", "C14", "C15", "C16", "C17", "C18", "C19", "C20"}
 
 // notApplicable: reason per property that is not (yet) claimed.
-var notApplicable = map[string]string{}
+var notApplicable = map[string]string{
+	"C02": "the kernel half of the property is the eBPF program control/kern/tproxy.c; its headers (git submodule control/kern/headers -> dae_bpf_headers) are not in the sandbox and cannot be fetched, so clang cannot produce the LLVM IR the C-side symbolic executor (DESIGN.md E2) was to run on; encoding a hand transcription of route() instead would not be checking the real code. The userspace half (rule compilation and first-match evaluation) is covered under C01.",
+	"C03": "every function the property is about (the four TC entry programs, packet parsing, per-flow state, redirect) lives in control/kern/tproxy.c, which cannot be compiled to IR here: the BPF headers submodule is absent and there is no network (see C02); no solver-based check of the real code is possible.",
+	"C19": "the property relates Go declarations to the C declarations and constants in control/kern/tproxy.c and to the bpf2go output of the real build; neither the C side (headers submodule absent, cannot compile) nor the generated Go (bpf2go needs the compiled object) exists in the sandbox, so the layouts cannot be extracted from real code for a solver query.",
+}
 
 const baselineOff = "cd /repo && go test -vet=off -count=1 -timeout 25m ./... 2>&1 | grep -v '^FAIL\\|build failed' ; true"
 
